@@ -30,9 +30,25 @@ Definition in_times_adj (m : mode) : bool :=
 Fixpoint prodl (l : list nat) : nat :=
   match l with [] => 1 | n :: r => n * prodl r end.
 
+(* the scalars: any structure with ring operations (the theorems assume the ring laws) *)
+Record ring_ops := mkops {
+  carrier : Type;
+  op_0 : carrier; op_1 : carrier;
+  op_add : carrier -> carrier -> carrier;
+  op_mul : carrier -> carrier -> carrier;
+  op_sub : carrier -> carrier -> carrier;
+  op_opp : carrier -> carrier
+}.
+
 Section Generic.
-  Variable R : Type.
-  Variables (r0 r1 : R) (radd rmul rsub : R -> R -> R) (ropp : R -> R).
+  Variable K : ring_ops.
+  Local Notation R := (carrier K).
+  Local Notation r0 := (op_0 K).
+  Local Notation r1 := (op_1 K).
+  Local Notation radd := (op_add K).
+  Local Notation rmul := (op_mul K).
+  Local Notation rsub := (op_sub K).
+  Local Notation ropp := (op_opp K).
 
   Definition C : Type := (R * R)%type.
   Definition c0 : C := (r0, r0).
@@ -159,12 +175,12 @@ Section Generic.
 
 End Generic.
 
-Arguments mkgeo {R}.
-Arguments ncells {R}.
-Arguments dom_harm {R}.
-Arguments dvol_dom {R}.
-Arguments dvol_tgt {R}.
-Arguments inv_n {R}.
+Arguments mkgeo {K}.
+Arguments ncells {K}.
+Arguments dom_harm {K}.
+Arguments dvol_dom {K}.
+Arguments dvol_tgt {K}.
+Arguments inv_n {K}.
 
 (* ================================================================================================
    Executable instance: Gaussian rationals Qc[i].  Axis lengths 1, 2, 4 have their primitive root of
@@ -172,23 +188,24 @@ Arguments inv_n {R}.
    ================================================================================================ *)
 From Coq Require Import ZArith QArith Qcanon.
 
-Definition QC : Type := C Qc.
+Definition QcK : ring_ops := mkops Qc 0%Qc 1%Qc Qcplus Qcmult Qcminus Qcopp.
+Definition QC : Type := C QcK.
 
 Definition ipow (e : nat) : QC :=
-  match e mod 4 with
-  | 0 => (1%Qc, 0%Qc)
-  | 1 => (0%Qc, 1%Qc)
-  | 2 => ((-(1))%Qc, 0%Qc)
+  match (e mod 4)%nat with
+  | 0%nat => (1%Qc, 0%Qc)
+  | 1%nat => (0%Qc, 1%Qc)
+  | 2%nat => ((-(1))%Qc, 0%Qc)
   | _ => (0%Qc, (-(1))%Qc)
   end.
 
 (* omega_n^e = i^(e * 4/n) for n in {1,2,4} *)
-Definition gw (n e : nat) : QC := ipow (e * (4 / n)).
+Definition gw (n e : nat) : QC := ipow (e * (4 / n))%nat.
 
-Definition axis_ok (n : nat) : bool := (n =? 1) || (n =? 2) || (n =? 4).
+Definition axis_ok (n : nat) : bool := ((n =? 1) || (n =? 2) || (n =? 4))%nat.
 
 Definition gkern (shape : list nat) : nat -> nat -> QC :=
-  kern Qc 0%Qc 1%Qc Qcplus Qcmult Qcminus gw shape.
+  kern QcK gw shape.
 
 Definition qnat (n : nat) : Qc := Q2Qc (inject_Z (Z.of_nat n)).
 
@@ -200,22 +217,22 @@ Fixpoint qprod (l : list Qc) : Qc := match l with [] => 1%Qc | a :: r => (a * qp
 Definition codists (shape : list nat) (dists : list Qc) : list Qc :=
   map (fun nd => (/ (qnat (fst nd) * snd nd))%Qc) (combine shape dists).
 
-Definition ggeo (shape : list nat) (dists : list Qc) (harm : bool) : geo Qc :=
-  mkgeo (prodl shape) harm (qprod dists) (qprod (codists shape dists)) (/ qnat (prodl shape))%Qc.
+Definition ggeo (shape : list nat) (dists : list Qc) (harm : bool) : geo QcK :=
+  @mkgeo QcK (prodl shape) harm (qprod dists) (qprod (codists shape dists)) (/ qnat (prodl shape))%Qc.
 
 Definition toQC (p : Q * Q) : QC := (Q2Qc (fst p), Q2Qc (snd p)).
 
 Definition g_fft (shape : list nat) (dists : list Q) (harm : bool) (m : mode) : (nat -> QC) -> nat -> QC :=
-  fft_apply Qc 0%Qc 1%Qc Qcplus Qcmult Qcminus Qcopp (gkern shape) (ggeo shape (map Q2Qc dists) harm) m.
+  fft_apply QcK (gkern shape) (ggeo shape (map Q2Qc dists) harm) m.
 
 Definition g_hartley (noncanon : bool) (shape : list nat) (dists : list Q) (harm : bool) (m : mode)
   : (nat -> QC) -> nat -> QC :=
-  hartley_apply Qc 0%Qc 1%Qc Qcplus Qcmult Qcminus Qcopp noncanon (gkern shape)
+  hartley_apply QcK noncanon (gkern shape)
                 (ggeo shape (map Q2Qc dists) harm) m.
 
 Definition g_flat (f : (nat -> QC) -> nat -> QC) (B : nat) (shape : list nat) (A : nat) (x : list (Q * Q))
   : list QC :=
-  flat_apply Qc 0%Qc f B (prodl shape) A (map toQC x).
+  flat_apply QcK f B (prodl shape) A (map toQC x).
 
 Definition qceqb (a b : QC) : bool := Qc_eq_bool (fst a) (fst b) && Qc_eq_bool (snd a) (snd b).
 
@@ -243,17 +260,17 @@ Definition check_hartley (noncanon : bool) (B : nat) (shape : list nat) (dists :
    of the given shape *)
 Definition check_kernel_fftn (shape : list nat) (x y : list (Q * Q)) : bool :=
   forallb axis_ok shape && (length x =? prodl shape) &&
-  qclist_eqb (g_flat (fftn Qc 0%Qc Qcplus Qcmult Qcminus Qcopp (gkern shape) (prodl shape)) 1 shape 1 x)
+  qclist_eqb (g_flat (fftn QcK (gkern shape) (prodl shape)) 1 shape 1 x)
              (map toQC y).
 
 Definition check_kernel_ifftn (shape : list nat) (x y : list (Q * Q)) : bool :=
   forallb axis_ok shape && (length x =? prodl shape) &&
-  qclist_eqb (g_flat (ifftn Qc 0%Qc Qcplus Qcmult Qcminus (gkern shape) (prodl shape) (/ qnat (prodl shape))%Qc)
+  qclist_eqb (g_flat (ifftn QcK (gkern shape) (prodl shape) (/ qnat (prodl shape))%Qc)
                      1 shape 1 x)
              (map toQC y).
 
 Definition check_kernel_hartley (noncanon : bool) (shape : list nat) (x y : list (Q * Q)) : bool :=
   forallb axis_ok shape && (length x =? prodl shape) &&
-  qclist_eqb (g_flat (fun v k => (hartley Qc 0%Qc Qcplus Qcmult Qcminus Qcopp noncanon (gkern shape) (prodl shape)
+  qclist_eqb (g_flat (fun v k => (hartley QcK noncanon (gkern shape) (prodl shape)
                                           (fun j => fst (v j)) k, 0%Qc)) 1 shape 1 x)
              (map toQC y).
